@@ -185,6 +185,66 @@ theorem walk_fuel_mono (s : LL) (l : List Nat) :
           simp only [LL.walk, List.cons.injEq, true_and]
           exact ih k _ ht (by simp at hl; omega) k' (by omega)
 
+theorem build_snoc (items : List (Nat × Nat)) (x : Nat × Nat) :
+    LL.build (items ++ [x]) = (LL.build items).insert x := by
+  simp [LL.build, List.foldl_append]
+
+/-- After any insertion sequence with distinct particle ids, walking `head[c]`
+(with at least as much fuel as there are particles) lists exactly the inserted
+particles of flattened cell `c`, most recently inserted first — in particular
+each exactly once. -/
+theorem traverse_eq_bucket (items : List (Nat × Nat))
+    (hnd : (items.map (·.1)).Nodup) (c : Nat) :
+    ∀ n, items.length ≤ n →
+      (LL.build items).traverse n c =
+        ((items.filter (fun ic => ic.2 = c)).map (·.1)).reverse := by
+  induction items using List.reverseRecOn with
+  | nil =>
+    intro n _
+    simp [LL.traverse, LL.build, LL.empty]
+    cases n <;> rfl
+  | append_singleton items x ih =>
+    intro n hn
+    obtain ⟨i, c'⟩ := x
+    have hnd' : (items.map (·.1)).Nodup ∧ i ∉ items.map (·.1) := by
+      rw [List.map_append, List.nodup_append] at hnd
+      refine ⟨hnd.1, fun hm => ?_⟩
+      exact hnd.2.2 i hm i (by simp) rfl
+    have hlen : items.length + 1 ≤ n := by simpa using hn
+    have ihn := ih hnd'.1
+    have hnotin : ∀ m, items.length ≤ m → i ∉ (LL.build items).walk m ((LL.build items).head c) := by
+      intro m hm hmem
+      have := ihn m hm
+      simp only [LL.traverse] at this
+      rw [this] at hmem
+      simp only [List.mem_reverse, List.mem_map, List.mem_filter] at hmem
+      obtain ⟨a, ⟨ha, _⟩, hai⟩ := hmem
+      exact hnd'.2 (List.mem_map.mpr ⟨a, ha, hai⟩)
+    rw [build_snoc]
+    simp only [LL.traverse, List.filter_append, List.map_append, List.reverse_append]
+    by_cases hcc : c' = c
+    · subst hcc
+      obtain ⟨m, rfl⟩ : ∃ m, n = m + 1 := ⟨n - 1, by omega⟩
+      have hm : items.length ≤ m := by omega
+      have hhead : ((LL.build items).insert (i, c')).head c' = some i := by simp [LL.insert]
+      have hnext : ((LL.build items).insert (i, c')).next i = (LL.build items).head c' := by
+        simp [LL.insert]
+      rw [hhead]
+      simp only [LL.walk, hnext]
+      rw [walk_insert_of_not_mem _ _ _ _ _ (hnotin m hm)]
+      have := ihn m hm
+      simp only [LL.traverse] at this
+      rw [this]
+      simp
+    · have hhead : ((LL.build items).insert (i, c')).head c = (LL.build items).head c := by
+        simp only [LL.insert]
+        rw [if_neg (fun e => hcc e.symm)]
+      rw [hhead, walk_insert_of_not_mem _ _ _ _ _ (hnotin n (by omega))]
+      have := ihn n (by omega)
+      simp only [LL.traverse] at this
+      rw [this]
+      simp [hcc]
+
 /-! ## neighbour cache -/
 
 /-- what the cache promises for destination `d` -/
